@@ -133,6 +133,13 @@ func c11ScenariosFor(tier string, stores []string) []*h.Scenario {
 	}
 	defs := []def{
 		{name: "two-referrers-one-subject", threads: [][]h.Step{{putMan(repo, "A1", f.Items["A1"].Dig)}, {putMan(repo, "A2", f.Items["A2"].Dig)}}, extra: allListed("A0", "A1", "A2")},
+		// the list returns to an earlier value: the response blob of [A0 A1] is still in the store (pushed, deleted again in
+		// the prefix) when A1 is pushed again next to A2 - judged by the literal clause, not by the sequential runs alone
+		{name: "referrer-re-push-vs-another-referrer", threads: [][]h.Step{{putMan(repo, "A1", f.Items["A1"].Dig)}, {putMan(repo, "A2", f.Items["A2"].Dig)}}, extra: allListed("A0", "A1", "A2"), prefix: func(w *h.World) {
+			prefix(w)
+			mustStatus(w.PutManifest(repo, f.Items["A1"].Dig, mtImg, f.Items["A1"].Data), 201)
+			mustStatus(w.Delete("/v2/"+repo+"/manifests/"+f.Items["A1"].Dig), 202)
+		}},
 		{name: "two-pushes-one-tag", threads: [][]h.Step{{putMan(repo, "I1", "t")}, {putMan(repo, "I2", "t")}}, prefix: func(w *h.World) {
 			prefix(w)
 			mustStatus(w.PushBlob(repo, f.Items["l2"].Data, f.Items["l2"].Dig), 201)
@@ -255,7 +262,7 @@ func init() {
 	h.RegisterSched(&h.SchedCheck{
 		ID:    "C11",
 		Level: "model_checking",
-		Rule: "stateless depth-first search over all interleavings, up to the preemption bound, of 8 (quick) / 10 (thorough) scenarios per store on a pre-populated repository (two referrers to one subject, two pushes of one tag, referrer push vs referrer delete, tag push vs tag delete vs a reader, digest delete vs tag push, referrer push vs two reads, blob upload vs the manifest needing it, pushes to two repositories with a pending collection tick, two first accesses after a restart, two pushes racing with the eviction of the idle repository, three referrers, tag move vs tick) and, in the thorough tier, of every unordered pair of twelve kinds of single requests (three tag pushes, two referrer pushes, tag / digest / referrer delete, blob upload, three reads; 72 pairs per store, two preemptions, 150 s each); " +
+		Rule: "stateless depth-first search over all interleavings, up to the preemption bound, of 15 (quick) / 17 (thorough) scenarios per store on a pre-populated repository (two referrers to one subject, a referrer pushed again after its deletion next to another referrer, two pushes of one tag, referrer push vs referrer delete, tag push vs tag delete vs a reader, digest delete vs tag push, referrer push vs two reads, blob upload vs the manifest needing it, pushes to two repositories with a pending collection tick, two first accesses after a restart, two pushes racing with the eviction of the idle repository, three referrers, tag move vs tick) and, in the thorough tier, of every unordered pair of twelve kinds of single requests (three tag pushes, two referrer pushes, tag / digest / referrer delete, blob upload, three reads; 72 pairs per store, two preemptions, 150 s each); " +
 			"oracle: linearizability by brute force - every interleaving of the scenario's requests is executed sequentially on a fresh instance of the same implementation, and the explored execution's (responses, complete read transcript at quiescence) must equal the outcome of one of them that respects the observed real-time order; plus the literal clause that all acknowledged concurrent referrers are listed; non-trivial = distinct outcomes",
 		Assume:    []string{"scheduling points as in C12; the clock advances by one nanosecond per reading in the concurrent phase", "a collection tick is one operation of the scenario"},
 		Scenarios: c11Scenarios,
